@@ -24,13 +24,17 @@ CHECKS = {
 }
 
 CHECKS["C01"] = (MC,
-    "TLC enumeration of edit scripts (NotebookEdits.tla) concretised to real notebooks + TLC trace validation "
+    "TLC model checking of CellAlign.tla (transcription of the multilevel cell alignment, every pair of abstract cell lists; compared with "
+    "nbdime's algorithm and its real cell predicates) + TLC enumeration of edit scripts (NotebookEdits.tla) concretised to real notebooks + TLC trace validation "
     "(DiffTrace.tla) of diff_notebooks/patch_notebook and of the nbdiff --out / nbpatch -o file interface",
     "Every pair reachable with <= 2 edit actions from six base templates (TLC-enumerated), random walks and unrelated "
     "pairs are diffed by the real notebook differ; TLC evaluates per event: round trip with the specification's own "
     "Patch (independent of nbdime's patch), nbdime's patch result, empty-iff-identical, and for a rotating subset the "
     "diff/notebook read back from the files nbdiff and nbpatch wrote. The diff is a value: clauses RepeatPatch / "
-    "DiffUnchangedByPatch require that applying it a second time gives the same notebook and that applying it leaves it unchanged.",
+    "DiffUnchangedByPatch require that applying it a second time gives the same notebook and that applying it leaves it unchanged. "
+    "At design level the alignment algorithm of the notebook differ (seq_bruteforce.py, snakes.py) is transcribed into CellAlign.tla: TLC "
+    "checks on every pair of abstract cell lists that the snakes are monotone, in bounds, keep every top-level match, align a notebook "
+    "with itself cell by cell and yield a diff shape that rebuilds the target; the model's snakes equal nbdime's on every pair.",
     "Trusted: harness/concretize.py (content tables, validated per notebook with nbformat), harness/encode.py, TLC. "
     "Bounded/sampled input space; no proof.", "DESIGN.md §5 C01")
 
@@ -129,11 +133,12 @@ CHECKS["C18"] = (MC,
 
 CHECKS["C17"] = (MC,
     "TLC enumeration of repository histories (GitRefs.tla) replayed with real git (model trees compared with git's); TLC trace "
-    "validation (GitRefsTrace.tla: ExaminesExactlyReported, CwdPreservedAtEnd) of every changed_notebooks iteration against git's own report",
+    "validation (GitRefsTrace.tla: ExaminesExactlyReported, CwdPreservedAtEnd, OutputWhereRun) of every changed_notebooks iteration against git's own report",
     "TLC enumerates every history of edit/rm/stage/mv/commit actions up to the bound; each is replayed in a scratch repository and the "
     "model's working tree / index / HEAD must equal git's. For every ref pair kind x cwd x path filter one trace event records git's raw "
     "report (rename detection on), the pairs the generator yielded (content ids) and the cwd after each yield; TLC decides multiset "
-    "equality with the notebook entries of the report and cwd preservation.",
+    "equality with the notebook entries of the report and cwd preservation; the nbdiff command run from a sub-directory with a relative "
+    "--out must write where it was run.",
     "Trusted: git's own report as reference; content ids embedded in the notebooks; rename heuristics are git's.", "DESIGN.md §5 C17")
 
 CHECKS["C19"] = (MC,
@@ -180,7 +185,7 @@ CHECKS["C16"] = ("exploration",
     "Trusted: PATH-based renderer selection; the path categories of NbPaths for 'touches a non-ignored category'.", "DESIGN.md §5 C16")
 
 CHECKS["C13"] = ("exploration",
-    "TLC trace validation (FrameTrace.tla: ArgsUnchanged, ArgsUnchangedAfterResultMutation, Recomputable) of every public library call "
+    "TLC trace validation (FrameTrace.tla: ArgsUnchanged, ArgsUnchangedAfterResultMutation, Recomputable, RecomputedSame) of every public library call "
     "on inputs of the C01-C03 spaces, with arguments re-encoded after the call and after scribbling on every container of the result",
     "The frame condition UNCHANGED args is a TLA+ clause evaluated by TLC on the encoded arguments before / after each call and after "
     "the returned result has been mutated everywhere; there is no state space to explore beyond the calls themselves, so the level is "
